@@ -235,16 +235,31 @@ func registerResolver() {
 		CVQuick:  2, CVThor: 4,
 	})
 	c17 := func(k, final, form int64) Shard {
-		return sh("HarnessC17", fmt.Sprintf("%d results + final slot %d (0 none, 1 error, 2 concrete error type), form %d (0 positional, 1 marker struct, 2 pointer to marker struct with symbolic nil-ness)", k, final, form), 0, k, final, form)
+		return sh("HarnessC17", fmt.Sprintf("%d results + final slot %d (0 none, 1 error, 2 concrete error type, 3 interface{}, 4 interface with error's method set), form %d (0 positional, 1 marker struct, 2 pointer to marker struct with symbolic nil-ness)", k, final, form), 0, k, final, form)
+	}
+	var c17all []Shard
+	for k := int64(0); k <= 3; k++ {
+		for final := int64(0); final <= 4; final++ {
+			for form := int64(0); form <= 2; form++ {
+				if form > 0 && (k == 0 || final >= 2) {
+					continue // a marker-struct result may only be followed by an error (NewFunc rejects other shapes)
+				}
+				c17all = append(c17all, c17(k, final, form))
+			}
+		}
+	}
+	for kind := int64(0); kind < 4; kind++ {
+		c17all = append(c17all, sh("HarnessC17Fail", fmt.Sprintf("resolution failure scenario %d", kind), 0, kind), sh("HarnessC17Once", fmt.Sprintf("run-once function (form %d) used as a converter, then called directly twice, then unresolvably", kind), 0, kind))
 	}
 	register(&PropSpec{
 		ID: "C17", Pkg: "argmapper",
-		Quick: []Shard{c17(0, 0, 0), c17(0, 1, 0), c17(1, 1, 0), c17(2, 1, 0), c17(2, 0, 0), c17(2, 2, 0), c17(3, 1, 0), c17(2, 1, 1), c17(1, 0, 1), c17(0, 2, 0), c17(2, 1, 2), c17(1, 0, 2),
+		Thorough: c17all,
+		Quick: []Shard{c17(0, 0, 0), c17(0, 1, 0), c17(1, 1, 0), c17(2, 1, 0), c17(2, 0, 0), c17(2, 2, 0), c17(3, 1, 0), c17(2, 1, 1), c17(1, 0, 1), c17(0, 2, 0), c17(2, 1, 2), c17(1, 0, 2), c17(0, 3, 0), c17(1, 3, 0), c17(0, 4, 0), c17(2, 4, 0),
 			sh("HarnessC17Fail", "resolution failure: missing argument", 0, 0), sh("HarnessC17Fail", "resolution failure: nil option", 0, 1), sh("HarnessC17Fail", "resolution failure: converter input missing", 0, 2), sh("HarnessC17Fail", "failing converter", 0, 3),
 			sh("HarnessC17Once", "run-once function (struct form) used as a converter, then called directly twice", 0, 1), sh("HarnessC17Once", "run-once function (*struct form) used as a converter, then called directly twice", 0, 2),
 			sh("HarnessC17Once", "run-once function (positional form) used as a converter, then called directly twice", 0, 0), sh("HarnessC17Once", "run-once function (built form) used as a converter, then called directly twice", 0, 3)},
-		Covers:   []string{"C17.accessors-checked", "C17.final-error-checked", "C17.non-final-error-checked", "C17.concrete-error-type-is-an-output", "C17.resolution-failure-checked", "C17.once-checked", "C17.nil-pointer-struct-checked"},
-		Bounds:   []string{"all result arities 0..3 with result kinds drawn symbolically from {P0,P1,error,P2} (distinct), final slot none / error / concrete error type, nil-ness of every error slot symbolic; positional and marker-struct results", "four resolution-failure scenarios"},
+		Covers:   []string{"C17.accessors-checked", "C17.final-error-checked", "C17.non-final-error-checked", "C17.concrete-error-type-is-an-output", "C17.resolution-failure-checked", "C17.once-checked", "C17.nil-pointer-struct-checked", "C17.final-non-error-interface-checked"},
+		Bounds:   []string{"all result arities 0..3 with result kinds drawn symbolically from {P0,P1,error,P2} (distinct), final slot none / error / concrete error type / interface{} / a non-error interface with error's method set (the last two nil or holding an error value), nil-ness of every error slot symbolic; positional and marker-struct results", "four resolution-failure scenarios"},
 		Outside:  []string{"more than 3 results before the final slot", "result lists repeating a type"},
 		Assume:   common,
 		Anchored: []string{"(*github.com/hashicorp/go-argmapper.Result).Err", "(*github.com/hashicorp/go-argmapper.Result).Len", "(*github.com/hashicorp/go-argmapper.Result).Out", "(*github.com/hashicorp/go-argmapper.Result).hasError", "(*github.com/hashicorp/go-argmapper.Func).callDirect"},
